@@ -1,6 +1,7 @@
 package main
 
 import (
+	"encoding/json"
 	"flag"
 	"fmt"
 	"os"
@@ -15,17 +16,19 @@ import (
 )
 
 var (
-	flagProp   = flag.String("prop", "", "property id (C01…); empty with -all runs every rule")
-	flagTier   = flag.String("tier", "", "quick|thorough (default: $VERIF_TIER or quick)")
-	flagRepo   = flag.String("repo", "/repo", "repository to analyse")
-	flagVerif  = flag.String("verif", "/verif", "verification directory (evidence, known findings, out)")
-	flagAll    = flag.Bool("all", false, "run all rules, print every non-discharged obligation, write no evidence")
-	flagDump   = flag.Bool("dump", false, "print every obligation")
-	flagRule   = flag.String("rule", "", "restrict to rules with this prefix (debug)")
-	flagNoEv   = flag.Bool("no-evidence", false, "do not write evidence/out files (used for scratch trees)")
-	flagCHA    = flag.Bool("cha", false, "use the CHA call graph")
-	flagReplay = flag.String("replay", "", "print a violation record and re-run its rule")
-	flagCat    = flag.Bool("catalogue", false, "print the rule catalogue as a markdown table (rule, properties, obligations on the current tree, doc)")
+	flagProp      = flag.String("prop", "", "property id (C01…); empty with -all runs every rule")
+	flagTier      = flag.String("tier", "", "quick|thorough (default: $VERIF_TIER or quick)")
+	flagRepo      = flag.String("repo", "/repo", "repository to analyse")
+	flagVerif     = flag.String("verif", "/verif", "verification directory (evidence, known findings, out)")
+	flagAll       = flag.Bool("all", false, "run all rules, print every non-discharged obligation, write no evidence")
+	flagDump      = flag.Bool("dump", false, "print every obligation")
+	flagRule      = flag.String("rule", "", "restrict to rules with this prefix (debug)")
+	flagNoEv      = flag.Bool("no-evidence", false, "do not write evidence/out files (used for scratch trees)")
+	flagCHA       = flag.Bool("cha", false, "use the CHA call graph")
+	flagReplay    = flag.String("replay", "", "print a violation record and re-run its rule")
+	flagOverlay   = flag.String("overlay", "", "apply this unified diff to the repository in memory before analysing (sensitivity sweep; never writes to disk)")
+	flagPropsJSON = flag.Bool("props-json", false, "print {property: [rules]} from the registry (used by gen_manifest.py)")
+	flagCat       = flag.Bool("catalogue", false, "print the rule catalogue as a markdown table (rule, properties, obligations on the current tree, doc)")
 )
 
 func main() {
@@ -61,6 +64,20 @@ func main() {
 		}
 	}()
 
+	if *flagPropsJSON {
+		out := map[string][]string{}
+		for _, r := range registry {
+			for _, p := range r.Props {
+				out[p] = append(out[p], r.Name)
+			}
+		}
+		for _, v := range out {
+			sort.Strings(v)
+		}
+		b, _ := json.Marshal(out)
+		fmt.Println(string(b))
+		return
+	}
 	if *flagCat {
 		c := Load(*flagRepo, Config{Name: "default"}, nil)
 		known := loadKnown(filepath.Join(*flagVerif, "known_findings.json"))
@@ -112,6 +129,11 @@ func main() {
 				n++
 			}
 		}
+		if *flagRule == "" {
+			for _, st := range staleJustifications() {
+				fmt.Printf("STALE-JUSTIFICATION %s\n", st)
+			}
+		}
 		fmt.Printf("# total=%d bad=%d wall=%.1fs\n", len(obs), n, time.Since(start).Seconds())
 		if n > 0 {
 			os.Exit(1)
@@ -147,8 +169,17 @@ func runProperty(prop, tier string, seed int, start time.Time) int {
 	var all []Obligation
 	nfuncs, nedges := 0, 0
 	chaOnly := []string{}
+	var overlay map[string][]byte
+	if *flagOverlay != "" {
+		ov, err := overlayFromDiff(*flagRepo, *flagOverlay)
+		if err != nil {
+			fmt.Fprintf(os.Stderr, "overlay does not apply: %v\n", err)
+			return 3
+		}
+		overlay = ov
+	}
 	for ci, cfg := range configs {
-		c := Load(*flagRepo, cfg, nil)
+		c := Load(*flagRepo, cfg, overlay)
 		if ci == 0 {
 			nfuncs = len(c.Funcs)
 			for _, f := range c.Funcs {
@@ -291,6 +322,14 @@ func runProperty(prop, tier string, seed int, start time.Time) int {
 	}
 	if tier == "thorough" {
 		cov["cha_only"] = chaOnly
+		if *flagOverlay == "" {
+			sw := runSweep(prop, rules)
+			cov["sensitivity_sweep"] = sw
+			fmt.Printf("sensitivity sweep: %d variants apply to this tree, %d detected, %d missed, %d skipped\n", sw.Applicable, sw.Detected, len(sw.Missed), len(sw.Skipped)+len(sw.Broken))
+			for _, m := range sw.Missed {
+				fmt.Printf("  warning: variant %s is not reported by the rules of %s on this tree\n", m, prop)
+			}
+		}
 	}
 	ev := Evidence{
 		PropertyID: prop, Tier: tier, Seed: seed, Level: "other", Coverage: cov,
